@@ -268,7 +268,7 @@ def exTreeL : Ex :=
       [' '] (.paren [] (.bin 3 (.atom [] ['1']) [] (.atom [] ['2'])) []))
     [' '] (.atom [' '] ['3'])
 
-example : ClassTL exTableL ['0', '1', '2', '3'] true where
+theorem exTableL_class : ClassTL exTableL ['0', '1', '2', '3'] true where
   base := rfl
   lsup := rfl
   rsup := rfl
@@ -291,8 +291,11 @@ example : ClassTL exTableL ['0', '1', '2', '3'] true where
       simp [exTableL] at hi hj; subst hi; subst hj; decide
   parInc := by decide
 
-example : WFL exTableL ['0', '1', '2', '3'] exTreeL := by
+theorem exTreeL_wf : WFL exTableL ['0', '1', '2', '3'] exTreeL := by
   simp [exTreeL, WFL, exTableL, White, Ex.lvl]
+
+/-- the hypotheses of `infix_roundtrip_left_partial` are satisfiable together (trailing blanks included) -/
+example := infix_roundtrip_left_partial exTableL_class exTreeL exTreeL_wf [' ', '\n'] (by simp [White, exTableL])
 
 example : render exTableL exTreeL = "1 * 2*3 + -0 +(1+2) ^^ 3".toList := by decide
 
